@@ -297,6 +297,16 @@ def check(an: Analysis) -> None:
         for r in [r for r in s.returns if r.id in reach]:
             if s.returns_entry_value(r):
                 ob3.fail(fi, r.ast, "[absent] returns an entry value although nothing is cached")
+        # what a miss hands back: the function's own result (sync) / the awaited shielded task (async)
+        miss_sc = s.sc(present=False)
+        for r in [r for r in s.returns if r.id in miss_sc.reach and not s.returns_entry_value(r)]:
+            v = unwrap(r.ast.value)  # type: ignore[union-attr]
+            if s.is_async:
+                ok = isinstance(v, ast.Await) and isinstance(unwrap(v.value), ast.Call) and an.callee(fi, unwrap(v.value)) == "asyncio.shield" and "call:asyncio.AbstractEventLoop.create_task" in d.origins(unwrap(v.value).args[0])
+            else:
+                ok = v is not None and f"call:{fi.cls.qualname}._function" in d.origins(v)
+            if not ok:
+                ob2.fail(fi, r.ast, "on a miss the caller does not get the wrapped function's own result")
         # ---------------- C12.4 store + eviction
         if not s.stores:
             ob4.fail(fi, None, "results are never stored")
@@ -393,6 +403,38 @@ def check(an: Analysis) -> None:
         kws = {k.arg: k.value for k in c.keywords}
         if not (is_name(kws.get("limit"), "limit") and is_name(kws.get("expiration"), "expiration") and c.args and is_name(c.args[0], "function")):
             ob.fail(wrap, c, "cache() does not pass function/limit/expiration on to the cache object")
+
+    # method access: instance given -> bound form through __method_call__; class access -> the cache object itself
+    from ..kinds import Abs, Scenario
+
+    for cname in ("helpers.caching._SyncCache", "helpers.caching._AsyncCache"):
+        get = prog.fn(f"{cname}.__get__")
+        gg = an.cfg(get)
+        dget = Deps(prog, get)
+        gp = get.param_names()
+        for label, inst, own in (("through an instance", Abs("object", tag="instance"), Abs("type", "object", tag="owner")), ("through the class", None, Abs("type", "object", tag="owner"))):
+
+            def base(e: ast.AST, inst=inst, own=own):
+                if is_name(e, gp[1]):
+                    return inst
+                if len(gp) > 2 and is_name(e, gp[2]):
+                    return own
+                return NOVALUE
+
+            sc = Scenario(gg, dget, base)
+            live = [n for n in gg.nodes if n.kind == "return" and n.id in sc.reach]
+            ob1.inst(get, None, f"__get__ {label}: {len(live)} return(s)")
+            if not live:
+                ob1.fail(get, None, f"{cname.rsplit('.', 1)[1]}.__get__ has no return for access {label}")
+            for r in live:
+                v = unwrap(r.ast.value)  # type: ignore[union-attr]
+                if inst is None:
+                    if not is_name(v, gp[0]):
+                        ob1.fail(get, r.ast, "class-level access to a cached method does not return the cache object itself")
+                else:
+                    ok = isinstance(v, ast.Call) and any(isinstance(x, ast.Attribute) and x.attr == "__method_call__" for x in ast.walk(v)) and any(is_name(x, gp[1]) for x in ast.walk(v))
+                    if not ok:
+                        ob1.fail(get, r.ast, "a cached method accessed through an instance is not bound to that instance (the receiver is lost: wrong arguments / shared entries)")
 
     # ------------------------------------------------------------------ C12.7 operations on the store
     ob = an.ob("C12.7", "K3", "the entry store `_cached` is touched only by get / move_to_end / item store / item delete / popitem / len inside the four call siblings")
